@@ -316,8 +316,9 @@ class CoopContext:
 class Patched:
     """with Patched(seed, policy, n_workers) as ctx: helpers.parallel_add(...)"""
 
-    def __init__(self, seed, policy, n_workers):
+    def __init__(self, seed, policy, n_workers, cores=None):
         self.ctx = CoopContext(seed, policy, n_workers)
+        self.cores = cores
 
     def __enter__(self):
         import logging
@@ -332,6 +333,11 @@ class Patched:
         helpers.sleep = ctx.sleep
         RecordingSharedMemory.created = []
         cm.SharedMemory = hh.SharedMemory = hl.SharedMemory = RecordingSharedMemory
+        # the machine's core count is part of the environment: pretend 1, 2 or 64 physical cores
+        self.saved_cpu = helpers.psutil.cpu_count
+        cores = self.cores
+        if cores:
+            helpers.psutil.cpu_count = lambda logical=True: cores
         return ctx
 
     def __exit__(self, *exc):
@@ -339,4 +345,5 @@ class Patched:
             self.ctx.sched.shutdown()
         finally:
             helpers.get_context, helpers.sleep, cm.SharedMemory, hh.SharedMemory, hl.SharedMemory = self.saved
+            helpers.psutil.cpu_count = self.saved_cpu
         return False
